@@ -122,3 +122,27 @@ Proof.
   split; [intros v Hv; cbn in Hv; unfold c01t_roots; repeat (destruct v as [|v]; [cbn; tauto|]); cbn in Hv; exfalso; apply (Nat.nlt_0_r v); do 4 apply Nat.succ_lt_mono in Hv; exact Hv|].
   repeat split; vm_compute; reflexivity.
 Qed.
+
+(* =====================================================================================================================
+   APPENDED (IsoProofs*.v): the ISOMETRIC variant — supersedes the "STATED, NOT PROVED" note above.  The isometric
+   builder never fails (Properties_C14.C14_iso_total) and its collection is sufficient (C14_iso_sufficient), so
+   mcb_sva_iso_trees behaves like the Horton and FVS variants: the deterministic resolution completes, its run is an
+   accepted run, and every accepted run emitted a cycle basis of m - n + c cycles (`picks` is unused by TbIso). *)
+From Parmcb Require Import IsoProofsF1 IsoProofsF2.
+
+Theorem C01_iso_trees :
+  forall (g : graph) (wts : list Z) (roots picks : list nat),
+    simple_graph g -> positive_weights g wts -> (forall v, v < nv g -> In v roots) ->
+    (exists cycles total sup,
+       mcb_sva_trees_first_Z TbIso g wts roots picks = TRun (SvaOk cycles total sup) /\
+       mcb_sva_trees_accept_Z TbIso g wts roots picks cycles = Some total) /\
+    (forall cycles total, mcb_sva_trees_accept_Z TbIso g wts roots picks cycles = Some total ->
+       cycle_basis g cycles /\ has_cycle_space_dimension g (length cycles)).
+Proof. exact iso_C01_iso_trees. Qed.
+Print Assumptions C01_iso_trees.
+
+Theorem C01_iso_trees_total : C01_iso_trees_total_statement.
+Proof.
+  intros g wts roots Hsg Hpos Hr. exact (proj1 (iso_C01_iso_trees g wts roots [] Hsg Hpos Hr)).
+Qed.
+Print Assumptions C01_iso_trees_total.
